@@ -303,6 +303,28 @@ type Page[T any] struct {
 type KV[V any] map[string]V
 type List[E any] []E
 
+// a member type whose POINTER implements driver.Valuer (the value does not): the value is what is sent
+type PtrValuer struct{ N int64 }
+
+func (p *PtrValuer) Value() (driver.Value, error) { return p.N + 1000, nil }
+func (p *PtrValuer) Scan(v any) error {
+	switch x := v.(type) {
+	case int64:
+		p.N = x
+	case nil:
+		p.N = 0
+	default:
+		return fmt.Errorf("cannot scan %T into PtrValuer", v)
+	}
+	return nil
+}
+
+type HasPtrValuer struct {
+	ID int        `db:"id"`
+	V  PtrValuer  `db:"v"`
+	W  *PtrValuer `db:"w"`
+}
+
 type Priced struct {
 	Amount Money         `db:"amount"`
 	Null   sql.NullInt64 `db:"nullable"`
@@ -449,13 +471,13 @@ var zooSamples = []zooEntry{
 	{"Rec", Rec{}}, {"RecA", RecA{}}, {"RecRoot", RecRoot{}}, {"M", sqlair.M{}}, {"IntMap", IntMap{}}, {"KM", KM{}}, {"BadMap", BadMap{}}, {"PtrMap", PtrMap{}},
 	{"S", sqlair.S{}}, {"IntSlice", IntSlice{}}, {"StrSlice", StrSlice{}}, {"PersonSlice", PersonSlice{}},
 	{"Priced", Priced{}}, {"TaggedEmbed", TaggedEmbed{}}, {"EmbedUnexported", EmbedUnexported{}},
-	{"EmbedNonStruct", EmbedNonStruct{}}, {"Mixed", Mixed{}}, {"Doc", Doc{}}, {"Diamond", Diamond{}}, {"Twice", Twice{}}, {"Tracked", Tracked{}}, {"BlobOpt", BlobOpt{}}, {"PtrScan", PtrScan{}}, {"Wide", Wide{}}, {"Bill", Bill{}}, {"Loose", Loose{}}, {"Page", Page[int]{}}, {"KV", KV[int]{}}, {"List", List[int]{}},
+	{"EmbedNonStruct", EmbedNonStruct{}}, {"Mixed", Mixed{}}, {"Doc", Doc{}}, {"Diamond", Diamond{}}, {"Twice", Twice{}}, {"Tracked", Tracked{}}, {"BlobOpt", BlobOpt{}}, {"PtrScan", PtrScan{}}, {"Wide", Wide{}}, {"Bill", Bill{}}, {"Loose", Loose{}}, {"HasPtrValuer", HasPtrValuer{}}, {"Page", Page[int]{}}, {"KV", KV[int]{}}, {"List", List[int]{}},
 	{"TagLoneQuote", TagLoneQuote{}}, {"TagLoneDQuote", TagLoneDQuote{}}, {"TagLoneQuoteFlag", TagLoneQuoteFlag{}}, {"TagEmptyQuoted", TagEmptyQuoted{}}, {"TagEmptyDQuoted", TagEmptyDQuoted{}}, {"TagQuoteInside", TagQuoteInside{}}, {"TagSpace", TagSpace{}}, {"TagTrailingComma", TagTrailingComma{}}, {"TagTwoFlags", TagTwoFlags{}}, {"TagDash", TagDash{}}, {"TagStar", TagStar{}}, {"TagUnderscore", TagUnderscore{}}, {"TagMixedQuotes", TagMixedQuotes{}},
 	{"zoo2.Person", zoo2.Person{}}, {"zoo2.M", zoo2.M{}}, {"zoo2.IntSlice", zoo2.IntSlice{}},
 }
 
 // good types for statement generation (Prepare succeeds with them)
-var goodStructs = []string{"Person", "Address", "Manager", "Embed", "EmbedPtr", "Deep", "Deep4", "Contact", "AutoID", "AutoID", "Omit", "PtrFields", "Quoted", "Unicode", "Numeric", "Priced", "TaggedEmbed", "EmbedUnexported", "EmbedNonStruct", "Mixed", "Doc", "Diamond", "Twice", "Tracked", "BlobOpt", "PtrScan", "Wide", "Bill", "Loose"}
+var goodStructs = []string{"Person", "Address", "Manager", "Embed", "EmbedPtr", "Deep", "Deep4", "Contact", "AutoID", "AutoID", "Omit", "PtrFields", "Quoted", "Unicode", "Numeric", "Priced", "TaggedEmbed", "EmbedUnexported", "EmbedNonStruct", "Mixed", "Doc", "Diamond", "Twice", "Tracked", "BlobOpt", "PtrScan", "Wide", "Bill", "Loose", "HasPtrValuer"}
 var goodMaps = []string{"M", "IntMap", "KM", "PtrMap"}
 var goodSlices = []string{"S", "IntSlice", "StrSlice", "PersonSlice"}
 
